@@ -34,6 +34,15 @@ def decl_specs(tier):
         specs.append({'names': [c, 'i3'], 'wrapper': 'a', 'opts': {'generate_for_pack': False, 'generate_for_unpack': False}})
     for c in ('i1', 'i3', 'dn', 'm0', 'b35', 'sn', 'su', 'sr', 'o1', 'r1', 'rs', 'sdn'):
         specs.append({'names': [c], 'wrapper': 'd'})
+    # every integer width in every byte-order spelling, signed and unsigned, LAST in the packet (the appended bytes follow it directly)
+    # and before a plain byte: what lies behind an integer is not part of it
+    for n in (1, 2, 3, 4, 5, 6, 7, 8, 9):
+        for sg in 'us':
+            for e in ('def', 'big', 'lit', 'loc'):
+                specs.append({'names': ['x%d%s%s' % (n, e, sg)], 'wrapper': 'a'})
+                if e in ('big', 'lit'):
+                    specs.append({'names': ['i1', 'x%d%s%s' % (n, e, sg)], 'wrapper': 'b'})
+                    specs.append({'names': ['x%d%s%s' % (n, e, sg), 'i1'], 'wrapper': 'a', 'opts': {'generate_for_unpack': False}})
     # a position given to a field BEFORE it is wrapped by .when() / .repeated() (the library may honour it or drop it - either way the
     # parse must not depend on where the packet starts when the position is relative to the packet)
     from mc.ir import PKT, I, D, S, O, F, C, pos
